@@ -85,12 +85,13 @@ func (t *SafeStatus) merge(s task.Status, r Role) {
 		return
 	}
 
+	// The incoming status may be stale by the time we get here (the child read it before another
+	// goroutine updated a sibling), so whenever there are children we recompute from their current statuses.
+	allRoles := r.GetRoles()
 	switch {
-	case s == task.UNDEFINED: // if we get a new UNDEFINED status, the whole role is UNDEFINED
+	case len(allRoles) == 0 && s == task.UNDEFINED: // if we get a new UNDEFINED status, the whole role is UNDEFINED
 		t.status = task.UNDEFINED
-		return
 	default:
-		allRoles := r.GetRoles()
 		t.status = aggregateStatus(allRoles)
 	}
 }
